@@ -147,6 +147,10 @@ pub fn judge_sample<F: Fl>(spec: &Spec, confs: &[(Kind, f64)], case: &dyn Fn() -
             l.count("level>0.99");
         }
         l.count_s(format!("critical-value:{}", which));
+        if n <= 12 {
+            // oracle audit (development aid, VERIF_TRACE): raw event for an independent recomputation
+            sci_common::rt::trace(|| format!("C01 {} {} {} {:e} {:e} {:e} {:e} {:e} {}", F::TY, kind.name(), level, o.lo, o.hi, elo, ehi, ratio, data64.iter().map(|x| format!("{:e}", x)).collect::<Vec<_>>().join(",")));
+        }
         if !(ratio <= 1.0) {
             let lv = if level < 0.5 { "L<1/2" } else { "L>=1/2" };
             l.violation(
